@@ -339,7 +339,9 @@ def late_record(c, prop="C07"):
     for i in range(6):
         d, a = "lr_d%d" % i, "lr_a%d" % i
         # a direct connection, idle; then a record under its port number; then its first request
-        steps += [{"op": "connect", "conn": d, "wait": False}, {"op": "sleep", "ms": 60 if i % 2 else 5},
+        # (the record must appear AFTER the accept: wait until the accept path has looked the port up -- a fixed sleep is
+        #  not enough on a loaded machine, and a record that is there at accept time IS the connection's record)
+        steps += [{"op": "connect", "conn": d, "wait": True, "wait_ms": 8000}, {"op": "sleep", "ms": 60 if i % 2 else 5},
                   {"op": "inject_record", "conn": d, "attr": root_ws if i % 3 else user_imds}]
         meta.append({"e": "conn", "conn": d, "attributed": False, "elevated": False, "dest": "none"})
         for k in range(2):
